@@ -52,6 +52,10 @@ CHAIN_FAMILY = [
       {'order': [('p.id', False)], 'final': ('limit', 0, None)}, {'order': [('p.id', False)], 'final': ('slice', 1, None)}, {'order': [('p.id', False)], 'final': ('limit', 2, 1)}]),
     ('(p.a for p in P)', {},
      [{'final': ('aggr', 'COUNT')}, {'distinct': False, 'final': ('aggr', 'MAX')}, {'final': ('aggr', 'MIN')}, {'distinct': True, 'final': ('list',)}, {'final': ('list',)}]),
+    ('(p.a for p in P)', {},
+     [{'final': ('aggr', 'COUNT', None, d)} for d in (None, True, False)] + [{'final': ('aggr', 'SUM', None, d)} for d in (None, True, False)]),
+    ('(p.s for p in P)', {},
+     [{'distinct': False, 'final': ('aggr', 'GROUP_CONCAT', sep)} for sep in (None, '-', '')] + [{'final': ('aggr', 'COUNT', None, False)}, {'final': ('aggr', 'COUNT')}]),
     ('(p for p in P)', {},
      [{'order': [('p.a', False), ('p.id', False)], 'final': ('slice', 0, 2)}, {'order': [('p.a', True), ('p.id', False)], 'final': ('slice', 0, 2)}, {'order': [('p.id', False)], 'final': ('first',)}]),
 ]
@@ -64,7 +68,7 @@ def chain_sql(db, prog):
     with db_session:
         q = e1.build_query(db, prog)
         if final[0] == 'aggr':
-            return q._construct_sql_and_arguments(aggr_func_name=final[1])[:2]
+            return q._construct_sql_and_arguments(aggr_func_name=final[1], aggr_func_distinct=final[3] if len(final) > 3 else None, sep=final[2] if len(final) > 2 else None)[:2]
         cap = e1.capture_fetch(q, final)
         if final[0] == 'first': q, cap = cap
         return q._construct_sql_and_arguments(cap[0], cap[1])[:2]
@@ -76,7 +80,7 @@ def chain_histories(rep, db, S, tier, rng, exclude):
     for src, spec, chains in CHAIN_FAMILY:
         combos = [(v, c) for v in vectors(spec) for c in chains]
         pairs = [(a, b) for a in combos for b in combos if a != b]
-        if tier == 'quick' and len(pairs) > 12: pairs = rng.sample(pairs, 12)
+        if tier == 'quick' and len(pairs) > 40: pairs = rng.sample(pairs, 40)
         for (v1, c1), (v2, c2) in pairs:
             n += 1
             p1, p2 = Program(src, v1, 'string', chain=c1), Program(src, v2, 'string', chain=c2)
@@ -100,6 +104,51 @@ def chain_histories(rep, db, S, tier, rng, exclude):
             for ob in c24.check_chain(db, S, p2, exclude):          # decided on the warm caches
                 ob.name = name
                 rep.add(ob)
+    return n
+
+
+JOIN_SOURCES = ['((p.id, g.id) for g in G for p in g.ps)', '((g.id, t.id) for g in G for t in g.tags)', '((g.id, p.a) for g in G for p in g.ps if p.a > x)',
+                '((g.name, p.s) for g in G for p in g.ps)']
+
+
+def join_mode_histories(rep, db, S, exclude):
+    """select(src) and left_join(src) on the SAME source text / code object: the join mode is part of every cache key.
+    Differential (structural) for both orders; the warm select() translation is additionally decided by the E1 obligation."""
+    from pony.orm import core, db_session
+    n = 0
+    def text(src, fn, form, scope):
+        with db_session:
+            g = {e.__name__: e for e in db.entities.values()}
+            if form == 'string': q = fn(src, g, dict(scope))
+            else:
+                gg = dict(g); gg.update(scope); q = fn(eval(src, gg))
+            return q._construct_sql_and_arguments()[:2]
+    for src in JOIN_SOURCES:
+        scope = {'x': 1} if ' x' in src else {}
+        for form in ('string', 'generator'):
+            for first, second in ((core.select, core.left_join), (core.left_join, core.select)):
+                n += 1
+                name = 'join-mode | %s(%s) then %s(%s) [%s]' % (first.__name__, src, second.__name__, src, form)
+                clear_caches(db)
+                try: cold = text(src, second, form, scope)
+                except Exception as ex: cold = ('error', type(ex).__name__)
+                clear_caches(db)
+                try: text(src, first, form, scope)
+                except Exception: pass
+                try: warm = text(src, second, form, scope)
+                except Exception as ex: warm = ('error', type(ex).__name__)
+                if warm != cold:
+                    rep.add(Ob(name + ' [differential]', 'concrete-tie', CEX, detail='warm %r | cold %r' % (warm, cold), reproduced=True, key='warm-differs-from-cold',
+                               cex={'program': src, 'form': form, 'first': first.__name__, 'second': second.__name__, 'warm': repr(warm)[:300], 'cold': repr(cold)[:300]},
+                               replay='# C05: %s(src) then %s(src) for src=%r on one Database: warm %r, cold %r\nraise SystemExit(1)\n' % (first.__name__, second.__name__, src, warm, cold)))
+                else:
+                    rep.add(Ob(name + ' [differential]', 'concrete-tie', HOLDS))
+                if second is core.select and cold[0] != 'error':
+                    p2 = Program(src, {'x': INT(1)} if scope else {}, form)
+                    for ob in c01.check_program(db, S, p2, 'SQLite', 'sqlite', 10000, validate=False, exclude=exclude):   # caches still warm
+                        ob.name = name
+                        rep.add(ob)
+    clear_caches(db)
     return n
 
 
@@ -285,13 +334,14 @@ def run(tier, seed, only=None):
         S3 = symdb.build(db, R=3, strlen=2)
         n += chain_histories(rep, db, S3, tier, rng, exclude + [e['key'] for e in load_known('C24')])
         clear_caches(db)
+    if not only or only == 'join': n += join_mode_histories(rep, db, S, exclude)
     rep.programs = n
     if not only: alternating_code_objects(rep, db)
     if not only or only == 'session': session_histories(rep)
     if not only:
         T = 150 if tier == 'quick' else 900
         specs = [dict(module='checks.h_c30', fn=f, cond_timeout=T, path_timeout=T / 2)
-                 for f in ('adapt_history_format', 'adapt_history_pyformat', 'adapt_history_qmark', 'adapt_history_styles', 'rawsql_history')]
+                 for f in ('adapt_history_format', 'adapt_history_pyformat', 'adapt_history_qmark', 'adapt_history_styles', 'rawsql_history', 'adapt_history_keys', 'rawsql_history_keys')]
         ch.run_harnesses(rep, specs, None)
     rep.bounds = {'histories': 'length 2 (a cache entry is written by one execution and misused by the next; pony never evicts)',
                   'programs': '%d (program, spelling, ordered parameter-vector pair) histories over %d parametrised programs' % (n, len(FAMILY)),
